@@ -199,20 +199,37 @@ def explain(lost, invented, text):
     return None
 
 
+PARSE_LIMIT = 20
+
+
 def _timed_parse(text):
-    return pc.impl_parse(text)
+    # a parse stuck inside one C call (a regular expression that backtracks without end) cannot be interrupted from
+    # Python: the worker arms an alarm whose default action ends the process; the pool replaces it, the case never answers
+    import signal
+    signal.signal(signal.SIGALRM, signal.SIG_DFL)
+    signal.alarm(PARSE_LIMIT)
+    try:
+        return pc.impl_parse(text)
+    finally:
+        signal.alarm(0)
 
 
 def parse_with_timeout(texts, limit):
-    """impl_parse over a pool; a case that does not come back within `limit` seconds is reported as ('timeout',)"""
+    """impl_parse over a pool; a case that does not come back within the limit is reported as ('timeout',)"""
+    import time
     out = [None] * len(texts)
     with mp.get_context('fork').Pool(14) as pool:
         hs = [pool.apply_async(_timed_parse, (t, )) for t in texts]
+        lost = 0
         for i, h in enumerate(hs):
             try:
-                out[i] = h.get(timeout=limit)
+                # cases are started in order: once the pool has had time for everything submitted before this one, a
+                # missing answer means its worker was ended by the alarm
+                # (after three lost cases the verdict is settled: the rest is collected without waiting)
+                out[i] = h.get(timeout=PARSE_LIMIT + 10 if lost < 3 else 1)
             except mp.TimeoutError:
-                out[i] = ('timeout', 'no answer within %d s' % limit)
+                lost += 1
+                out[i] = ('timeout', 'no answer within %d s' % PARSE_LIMIT)
     return out
 
 
@@ -285,7 +302,15 @@ def run(rep, tier, seed, replay=None, proof_ok=True):
             if r.random() < 0.3:
                 t, k2 = corrupt(t, r)
                 kind += '+' + k2
-            cases.append((kind, t, G.text(t, r, r.choice(G.STYLES))))
+            text = G.text(t, r, r.choice(G.STYLES))
+            if r.random() < 0.12:
+                # a block comment that is opened and never closed (the file was cut inside it): must be rejected, promptly
+                blanks = [i for i, ch in enumerate(text) if ch == ' ']
+                at = r.choice(blanks) if blanks else len(text)
+                body = ''.join(r.choice('abc xyz*/ \n*') for _ in range(r.randint(30, 200))).replace('*/', '* ')
+                text = text[:at] + ' /* ' + body + (text[at:].replace('*/', '') if r.random() < 0.5 else '')
+                kind += '+unterminated-comment'
+            cases.append((kind, t, text))
     if replay:
         import json
         cases = [('replay', [], json.load(open(replay))['input'])]
